@@ -13,6 +13,7 @@ from concurrent.futures import ThreadPoolExecutor
 
 ROOT = "/verif"
 BASE = "/tmp/seedrun"
+SET = "seeded"      # or "benign": behaviour-preserving rewrites, on which every check must stay quiet
 
 
 def sh(cmd, **kw):
@@ -36,7 +37,7 @@ def setup_runner(k):
 
 
 def run_one(d, sid, tier):
-    sd = os.path.join(ROOT, "seeded", sid)
+    sd = os.path.join(ROOT, SET, sid)
     meta = json.load(open(os.path.join(sd, "meta.json")))
     props = meta.get("checks") or [meta["property"]]
     repo = os.path.join(d, "repo")
@@ -44,7 +45,7 @@ def run_one(d, sid, tier):
     rc, out = sh(["git", "-C", repo, "apply", os.path.join(sd, "patch.diff")])
     if rc != 0:
         return sid, {"property": meta["property"], "applied": False, "detail": out[-300:]}
-    entry = {"property": meta["property"], "applied": True, "tier": tier, "checks": {}}
+    entry = {"property": meta["property"], "applied": True, "tier": tier, "checks": {}, "kind": meta.get("kind", "")}
     try:
         for pid in props:
             t0 = time.time()
@@ -74,13 +75,17 @@ def run_one(d, sid, tier):
 
 
 def main():
+    global SET, BASE
     args = sys.argv[1:]
     tier, j = "quick", 4
+    if "--set" in args:
+        i = args.index("--set"); SET = args[i + 1]; del args[i:i + 2]
+        BASE = "/tmp/seedrun_" + SET
     if "--tier" in args:
         i = args.index("--tier"); tier = args[i + 1]; del args[i:i + 2]
     if "-j" in args:
         i = args.index("-j"); j = int(args[i + 1]); del args[i:i + 2]
-    ids = args or sorted(os.path.basename(os.path.dirname(p)) for p in glob.glob(os.path.join(ROOT, "seeded", "*", "patch.diff")))
+    ids = args or sorted(os.path.basename(os.path.dirname(p)) for p in glob.glob(os.path.join(ROOT, SET, "*", "patch.diff")))
     j = min(j, len(ids))
     runners = [setup_runner(k) for k in range(j)]
     queues = [ids[k::j] for k in range(j)]
@@ -95,11 +100,24 @@ def main():
         for lst in ex.map(work, range(j)):
             for sid, e in lst:
                 results[sid] = e
-    resp = os.path.join(ROOT, "seeded", "RESULTS.json")
+    resp = os.path.join(ROOT, SET, "RESULTS.json")
     allres = json.load(open(resp)) if os.path.exists(resp) else {}
     allres.update(results)
     json.dump(allres, open(resp, "w"), indent=1, sort_keys=True)
-    with open(os.path.join(ROOT, "seeded", "RESULTS.md"), "w") as f:
+    if SET != "seeded":
+        with open(os.path.join(ROOT, SET, "RESULTS.md"), "w") as f:
+            f.write("| behaviour-preserving rewrite | property | kind | checks stayed quiet | check exit / wall | what was reported |\n|---|---|---|---|---|---|\n")
+            for sid in sorted(allres):
+                e = allres[sid]
+                if not e.get("applied"):
+                    f.write("| %s | %s | | patch no longer applies | | |\n" % (sid, e["property"]))
+                    continue
+                quiet = all(c["exit"] == 0 and not c["violation"] for c in e["checks"].values())
+                f.write("| %s | %s | %s | %s | %s | %s |\n" % (sid, e["property"], e.get("kind", ""), "yes" if quiet else "ALARM",
+                        "; ".join("%s: %d / %.0fs" % (p, c["exit"], c["wall_s"]) for p, c in e["checks"].items()),
+                        "; ".join(((c["violation"] or [""])[0] + " " + (c.get("reason") or "")).replace("|", "/")[:160] for c in e["checks"].values())))
+    else:
+      with open(os.path.join(ROOT, "seeded", "RESULTS.md"), "w") as f:
         f.write("| seeded change | property | caught | replay has failing input | check exit / wall | reason reported |\n|---|---|---|---|---|---|\n")
         for sid in sorted(allres):
             e = allres[sid]
@@ -113,8 +131,12 @@ def main():
     for k in range(j):
         sh(["git", "-C", "/repo", "worktree", "remove", "--force", os.path.join(runners[k], "repo")])
         shutil.rmtree(runners[k], ignore_errors=True)
-    missed = [s for s in results if results[s].get("applied") and not results[s]["caught"]]
-    print("missed:", missed)
+    if SET == "seeded":
+        missed = [s for s in results if results[s].get("applied") and not results[s]["caught"]]
+        print("missed:", missed)
+    else:
+        print("alarms:", [s for s in results if results[s].get("applied") and
+                          any(c["exit"] != 0 or c["violation"] for c in results[s]["checks"].values())])
     return 0
 
 
